@@ -1,6 +1,8 @@
 (* C01 - runtime property: statements over the transition-system models (Mux/Pipe.v, Mux/Accept.v); see also the sibling files. *)
 From Coq Require Import List NArith ZArith Bool Arith.
 From SA Require Import Base.Tok Gen.Shapes Mux.Lts Mux.Pipe Mux.Accept Mux.Runtime Mux.Runtime_proofs.
+From SA Require Gen.Shapes2.
+From Coq Require Import String.
 Import ListNotations.
 Local Open Scope nat_scope.
 
@@ -14,3 +16,15 @@ Proof. exact copy_invariant. Qed.
 
 Theorem c01_source_facts : buffer_size = 32768%N /\ server_max_frame = client_max_frame /\ max_header_size = 4096%N.
 Proof. repeat split; reflexivity. Qed.
+
+(* The copy loops behind PipeData are wired as the model takes them (each direction feeds its own report channel, in the plain and
+   in the logging variant), and the handshake's time limit is cleared for reading AND writing on both ends once the handshake is
+   over (a write deadline left armed cuts every session older than the limit). *)
+Theorem c01_runtime_glue_facts :
+  Gen.Shapes2.pipe_copy_loops = "pipeDebugData(downPipe,down,up);pipeDebugData(upPipe,up,down);pipeData(downPipe,down,up);pipeData(upPipe,up,down)"%string /\
+  Gen.Shapes2.server_handshake_deadline_armed = "SetDeadline(time.Now().Add(HandshakeTimeout))"%string /\
+  Gen.Shapes2.server_handshake_deadline_cleared = "SetDeadline(time.Time{})"%string /\
+  Gen.Shapes2.client_handshake_deadline_armed = "SetDeadline(time.Now().Add(HandshakeTimeout))"%string /\
+  Gen.Shapes2.client_handshake_deadline_cleared = "SetDeadline(time.Time{})"%string.
+Proof. repeat split; reflexivity. Qed.
+Print Assumptions c01_runtime_glue_facts.
